@@ -281,8 +281,23 @@ def cli_argv(pdsh, helper, scn, magic):
         if h["chan"] == "inband":
             argv.append("o%s:e0" % hexs(host_stdout(h, magic)))
         else:
-            argv.append("o-:" + {"exited": "e%d" % v, "killed": "s%d" % v, "to": "t30"}[k])
+            pre = "c%d_" % h["close_ms"] if h.get("close_ms") and k in ("exited", "killed") else ""
+            argv.append("o-:" + pre + {"exited": "e%d" % v, "killed": "s%d" % v, "to": "t30"}[k])
     return argv
+
+
+def gen_late_exit_scenario(rng):
+    """out-of-band status of a command that closes stdin/stdout/stderr and ends 0.7-1.5 s LATER with a non-zero
+    code / a signal: pdsh sees EOF, reaches exec_destroy while the command still runs, and must wait for it"""
+    n = rng.choice([1, 2, 3])
+    hosts = [{"chan": "exec", "outcome": ("exited", rng.choice([0, 0, 1, 5])), "out": b"", "pre": b"", "late": b"", "delay": 0}
+             for _ in range(n)]
+    i = rng.randrange(n)
+    hosts[i]["outcome"] = rng.choice([("exited", rng.choice([1, 2, 3, 42, 127, 200, 255])), ("exited", rng.randrange(1, 256)),
+                                      ("killed", rng.choice([9, 15]))])
+    hosts[i]["close_ms"] = rng.randrange(700, 1500)
+    S, k = rng.choice([(1, 0), (1, 0), (0, 1), (1, 1)])
+    return {"S": S, "k": k, "fanout": 32, "cmdtmo": 0, "hosts": hosts}
 
 
 def cli_model_line(scn, magic):
@@ -345,11 +360,24 @@ def run(ctx):
     ctx.audit(PROPS)
     magic = rc_magic()
     exe = os.path.join(ctx.scratch, "exit_harness")
-    srcs = [os.path.join(HARNESS, "exit_harness.c"), os.path.join(HARNESS, "exit_exec.c")] + \
-           [os.path.join(REPO, p) for p in ("src/pdsh/cbuf.c", "src/common/hostlist.c", "src/common/list.c",
-                                            "src/common/err.c", "src/common/xmalloc.c", "src/common/xstring.c",
-                                            "src/common/xpoll.c", "src/common/fd.c", "src/common/pipecmd.c")]
-    ok = ctx.cc(exe, srcs, san=True, assertions=True)
+    # ONE snapshot of /repo for everything: the scratch copy made by repo_build() provides the binary AND the sources
+    # the in-process harness is compiled from (so a tree that is edited while the check runs cannot give a harness
+    # and a binary of different variants)
+    repo = ctx.repo_build()
+    ok = False
+    if repo:
+        srcs = [os.path.join(HARNESS, "exit_harness.c"), os.path.join(HARNESS, "exit_exec.c")] + \
+               [os.path.join(repo, p) for p in ("src/pdsh/cbuf.c", "src/common/hostlist.c", "src/common/list.c",
+                                                "src/common/err.c", "src/common/xmalloc.c", "src/common/xstring.c",
+                                                "src/common/xpoll.c", "src/common/fd.c", "src/common/pipecmd.c")]
+        cmd = ["gcc", "-g", "-O1", "-w", "-DHAVE_CONFIG_H", "-D_GNU_SOURCE", "-I" + repo, "-I" + repo + "/src/pdsh",
+               "-I" + repo + "/src/common", "-I" + repo + "/src", "-I" + HARNESS,
+               "-fsanitize=address,undefined", "-fno-sanitize-recover=all", "-fno-omit-frame-pointer"] + srcs + \
+              ["-o", exe, "-lpthread"]
+        cp = subprocess.run(cmd, stdout=subprocess.PIPE, stderr=subprocess.PIPE)
+        ok = cp.returncode == 0
+        if not ok:
+            ctx.broken.append(("C-BROKEN", "harness build exit_harness", cp.stderr.decode("utf-8", "replace")[-2000:]))
     env = dict(os.environ, ASAN_OPTIONS="detect_leaks=0")
     cov = {"evaluations": 0, "distinct_nontrivial": 0, "samples": [],
            "rule": "(a) lines for _extract_rc: text/marker/number pieces (signs, blanks, overflow at 2^31 2^32 2^63 2^64, "
@@ -358,6 +386,8 @@ def run(ctx):
                    "(in-band marker line with optional preceding unterminated text / later lines; out-of-band wait status) "
                    "x -S/-k x fanout x completion delays, run through the real dsh() on a scripted transport; (c) the same "
                    "through the scratch-built pdsh binary with -R exec and a helper command, plus refused argument lists; "
+                   "including commands that close stdin/stdout/stderr and end 0.7-1.5 s later with a non-zero code or a signal "
+                   "(exec_destroy must wait for them), plus refused argument lists; "
                    "non-trivial = at least one target does not simply succeed (non-zero code, signal, failure, marker with "
                    "preceding text or later lines); distinct = distinct case text"}
     dist = {"xrc": 0, "xrc_with_marker": 0, "xd": 0, "dsh_domain": 0, "dsh_raw": 0, "cli": 0, "cli_refused": 0,
@@ -417,6 +447,29 @@ def run(ctx):
                 ctx.disagreement("exit model vs exec_destroy", "%s: impl %s model %s" % (h, ans[0], m), {"op": "xd " + h})
         for c in range(256):
             real_xd.setdefault("e%d" % c, c)
+        # children that close stdin/stdout/stderr and end later: exec_destroy must block until the child is gone and
+        # return the status it really ended with (each in its own harness process, in parallel)
+        lates = ["c%d_%s" % (rng.randrange(700, 1500), e) for e in
+                 (["e3", "e255", "s9", "e%d" % rng.randrange(1, 256)] if ctx.quick() else
+                  ["e1", "e2", "e3", "e127", "e128", "e254", "e255", "s9", "s15", "s11"] + ["e%d" % rng.randrange(1, 256) for _ in range(10)])]
+        with concurrent.futures.ThreadPoolExecutor(max_workers=8) as ex:
+            limpl = list(ex.map(lambda h: run_batch([exe], [["xd " + h]], env=env, timeout=60)[0], lates))
+        lmod = ctx.model("exit", "".join("xd %s\n" % h.split("_")[1] for h in lates), args=["model", bits])
+        for h, (ans, crash), m in zip(lates, limpl, lmod):
+            cov["evaluations"] += 1
+            dist["xd_late_exit"] = dist.get("xd_late_exit", 0) + 1
+            distinct.add(("xd", h))
+            if crash is not None or not ans:
+                ctx.offender("crash", "exec_destroy harness aborts on %s: %s" % (h, (crash or "")[-300:]), {"op": "xd " + h})
+                continue
+            if ans[0] != m:
+                ctx.disagreement("exit model vs exec_destroy (child ends after closing its streams)",
+                                 "%s: impl %s model %s" % (h, ans[0], m), {"op": "xd " + h})
+            end = h.split("_")[1]
+            if end[0] == "e" and ans[0] != end[1:]:
+                ctx.offender("xd:status-of-late-exit", "exec_destroy returned %s for a child that closed its descriptors and "
+                             "exited %s ms later with code %s: the code reported for a host must be the status the command "
+                             "actually terminated with" % (ans[0], h[1:].split("_")[0], end[1:]), {"op": "xd " + h, "impl": ans[0]})
         # ---- (b) real dsh() on the scripted transport -----------------------------------------------
         nd = 350 if ctx.quick() else 6000
         scns = load_corpus_scn(magic) + [gen_scenario(rng, magic) for _ in range(nd)]
@@ -466,15 +519,17 @@ def run(ctx):
                 bad.append((s, h, m_in, ans[0], spl, exit_of(m) == exit_of(ans[0])))
         report_bad(ctx, bad, bits, "dsh()")
         # ---- (d) the real binary ----------------------------------------------------------------
-        repo = ctx.repo_build()
         helper = os.path.join(ctx.scratch, "exit_helper")
         hb = subprocess.run(["gcc", "-O1", "-w", os.path.join(HARNESS, "exit_helper.c"), "-o", helper])
         if repo and hb.returncode == 0:
             pdsh = os.path.join(repo, "src", "pdsh", "pdsh")
             nc = 70 if ctx.quick() else 900
             nt = 3 if ctx.quick() else 24
+            nl = 5 if ctx.quick() else 40
             cs = [gen_cli_scenario(rng, magic, False) for _ in range(nc)] + \
-                 [gen_cli_scenario(rng, magic, True) for _ in range(nt)]
+                 [gen_cli_scenario(rng, magic, True) for _ in range(nt)] + \
+                 [gen_late_exit_scenario(rng) for _ in range(nl)]
+            dist["cli_late_exit"] = nl
             argvs = [cli_argv(pdsh, helper, s, magic) for s in cs] + [[pdsh] + r for r in REFUSED]
             with concurrent.futures.ThreadPoolExecutor(max_workers=8) as ex:
                 res = list(ex.map(run_cli, argvs))
